@@ -104,3 +104,9 @@ impl fmt::Display for UserError {
         })
     }
 }
+
+#[cfg(feature = "verif")]
+#[allow(missing_docs, dead_code, unused_imports)]
+pub(crate) mod verif_h {
+    include!(concat!(env!("H2_VERIF_DIR"), "/harness/codec/error.rs"));
+}
